@@ -34,6 +34,54 @@ def check_total(c, r, ck, want_err=None):
     return None
 
 
+def long_lines(ck, tier, calc, only=None):
+    # ---- physical lines of any length through the line reader and the read-eval loop of file mode (the real binary): a long line is
+    # parsed and run, or rejected with one report, and the lines around it run exactly once either way
+    import re as _re
+    tmpdir = tempfile.mkdtemp(prefix="c06-", dir=vlib.scratch())
+    if only:
+        lens, kinds_only = [only["n"]], only["kind"]
+    else:
+        kinds_only = None
+    lens = lens if only else [1000, 4095, 4096, 4097, 65535, 65536, 65537, 70000] + ([] if tier == "quick" else [131072, 300000, 1100000])
+    kinds = {"string literal": (lambda n: 'write(#"' + "x" * n + '")', False), "comment": (lambda n: "write(7) ; " + "c" * n, False),
+             "float literal": (lambda n: "write(1." + "3" * n + " > 1)", False), "blanks": (lambda n: "write(" + " " * n + "8)", False),
+             "name": (lambda n: "write(#[v" + "w" * n + "])", False),
+             "string literal then a stray bracket": (lambda n: 'write("' + "x" * n + '") )', True), "stray bracket then a comment": (lambda n: "write(7) ) ; " + "c" * n, True),
+             "invalid character after blanks": (lambda n: "write(8)" + " " * n + "$", True)}
+    nlong = 0
+    for n in lens:
+        for kname, (mk, bad) in kinds.items():
+            if kinds_only and kname != kinds_only:
+                continue
+            for final_nl in (True, False):
+                script = 'write("before\n")\n' + mk(n) + '\nwrite("\nafter")' + ("\n" if final_nl else "")
+                path = os.path.join(tmpdir, "long.calc")
+                with open(path, "w") as f:
+                    f.write(script)
+                try:
+                    p = subprocess.run([calc, path], capture_output=True, text=True, timeout=600, stdin=subprocess.DEVNULL)
+                except subprocess.TimeoutExpired:
+                    raise vlib.Infra("calc binary timed out on a script with a line of %d characters" % n)
+                nlong += 1
+                ck.cov["evaluations"] += 1
+                ck.cov["traces_validated_against_impl"] += 1
+                reports = len(_re.findall(r"Parser:|Lexer:", p.stdout))
+                what = None
+                if p.returncode != 0:
+                    what = "the interpreter aborted (exit %d): %s" % (p.returncode, p.stderr[:200])
+                elif not p.stdout.startswith("before\n") or not p.stdout.endswith("\nafter") or p.stdout.count("before") != 1 or p.stdout.count("after") != 1:
+                    what = "the lines around it did not run exactly once: output %r ... %r" % (p.stdout[:40], p.stdout[-40:])
+                elif bad and reports != 1:
+                    what = "%d error reports for an invalid line" % reports
+                elif not bad and (reports or len(p.stdout) <= len("before\n\nafter")):
+                    what = "a valid line was %s: output %r ... %r" % ("rejected" if reports else "neither run nor rejected", p.stdout[:40], p.stdout[-40:])
+                if what:
+                    ck.violation("file mode, a line of %d characters (%s)%s: %s" % (len(mk(n)), kname, "" if final_nl else ", no final line break", what),
+                                 {"long_line": {"kind": kname, "n": n, "final_newline": final_nl}, "stdout_head": p.stdout[:200], "stdout_tail": p.stdout[-200:], "exit": p.returncode})
+    ck.part("long physical lines in file mode (real binary)", scripts=nlong, longest=max(lens))
+
+
 TOKS = ["1", "a", "+", "-", "(", ")", "[", "]", "{", "}", ",", ":", "=", "if", "else", "while", "for", "return", "yield", "<-", "->", "\n", '"s"', "true", "#", "==", "2.5"]
 
 
@@ -43,6 +91,9 @@ def run(tier, replay=None):
     rnd = random.Random(seed)
     if replay:
         case = json.load(open(replay))["case"]
+        if "long_line" in case:
+            long_lines(ck, tier, vlib.build_calc(), only=case["long_line"])
+            return ck.finish()
         res = frontlib.run_front([case])
         d = check_total(case, res[case["id"]], ck, case.get("want_err"))
         if d:
@@ -176,6 +227,7 @@ def run(tier, replay=None):
             ck.violation("-eval executed part of an input it reported as a parse error: %r printed %r" % (b, p.stdout[:200]), {"eval": b, "stdout": p.stdout})
         if p.returncode not in (0, 1) or "panic" in p.stderr or "goroutine" in p.stderr:
             ck.violation("-eval aborted on %r: %s" % (b, p.stderr[:300]), {"eval": b, "stderr": p.stderr[:2000]})
+    long_lines(ck, tier, calc)
     ck.cov["distinct_nontrivial"] = len(nontriv)
     ck.cov["rule"] = ("all class strings <= %d over 11 character classes (TLC-enumerated, accept/reject from Lexer.tla), token strings <= %d over 27 tokens, literal-length classes, "
                       "unterminated/unbalanced/edge inputs, nesting ladders to depth 10k, seeded random character strings and mutated valid programs; non-trivial = the parser "
